@@ -1506,7 +1506,9 @@ namespace bloch::runtime {
         }
     }
 
-    void RuntimeEvaluator::destroyObject(Object* obj, bool runUserDestructor) {
+    void RuntimeEvaluator::destroyObject(const std::shared_ptr<Object>& self,
+                                         bool runUserDestructor) {
+        Object* obj = self.get();
         if (!obj || obj->destroyed)
             return;
         obj->destroyed = true;
@@ -1526,7 +1528,7 @@ namespace bloch::runtime {
                 beginFrame();
                 Value thisVal;
                 thisVal.type = Value::Type::Object;
-                thisVal.objectValue = std::shared_ptr<Object>(obj, [](Object*) {});
+                thisVal.objectValue = self;
                 thisVal.className = cur->name;
                 m_env.back()["this"] = {thisVal, false, true};
                 for (auto& stmt : cur->destructorDecl->body->statements) {
@@ -2531,15 +2533,19 @@ namespace bloch::runtime {
                                  "cannot instantiate static or abstract class '" + cls->name + "'");
             }
             auto deleter = [this](Object* obj) {
+                // The destructor body reaches the object through 'self'. If it stores 'this'
+                // somewhere that outlives it (a static, another object's field), the memory
+                // stays valid until that reference is dropped as well; the object is marked
+                // destroyed by then and is not destructed a second time.
+                std::shared_ptr<Object> self(obj, [](Object* o) { delete o; });
                 try {
-                    destroyObject(obj, !obj->skipDestructor);
+                    destroyObject(self, !obj->skipDestructor);
                 } catch (...) {
                     // deleters run inside noexcept destructors (and possibly while another
                     // error unwinds): never let an exception out of here
                     if (!m_pendingDestructorError)
                         m_pendingDestructorError = std::current_exception();
                 }
-                delete obj;
             };
             auto obj = std::shared_ptr<Object>(new Object{}, deleter);
             obj->cls = cls;
